@@ -10,6 +10,7 @@ from types import MethodType
 import numpy as np
 
 from .helper import create_build_finer_grid_fun
+from ..levyprocess import refine_up_to_maturity
 from ..markovchain.markovchain import chain_over_intervals
 from ..markovchain.markovchainlevycopula import MarkovChainLevyCopula
 from ...distribution.sampling import SamplingMethod
@@ -426,8 +427,11 @@ class CouplingLevyCopulaSimulationMaximumStep(
             fine_all_values,
             coarse_all_values,
         ) = super().simulate_jumps_with_coupling()
-
-        if jump_times.size == 0:
-            return jump_times, fine_all_values, coarse_all_values
-        else:
-            return self.build_finer_grid(jump_times, fine_all_values, coarse_all_values)
+        return refine_up_to_maturity(
+            self.build_finer_grid,
+            self._maturity,
+            jump_times,
+            fine_all_values,
+            coarse_all_values,
+            empty_shape=(self._dimension,),
+        )
